@@ -165,8 +165,8 @@ package client
 //@ func (c *Client) SyncConfigTunnels(ctx context.Context)
 //@   safety off
 //@   opt frame=off
-//@   requires c.Configuration != nil && c.proxies != nil && c.Configuration.router != nil && c.connections != nil
-//@   requires configured-hostnames-are-distinct: forall i, j int {c.Configuration.Tunnels[i], c.Configuration.Tunnels[j]} :: (0 <= i && i < j && j < len(c.Configuration.Tunnels) && c.Configuration.Tunnels[i].Hostname != "" && c.Configuration.Tunnels[j].Hostname != "") ==> c.Configuration.Tunnels[i].Hostname != c.Configuration.Tunnels[j].Hostname
+//@   requires env-the-client-is-initialised: c.Configuration != nil && c.proxies != nil && c.Configuration.router != nil && c.connections != nil
+//@   requires env-configured-hostnames-are-distinct: forall i, j int {c.Configuration.Tunnels[i], c.Configuration.Tunnels[j]} :: (0 <= i && i < j && j < len(c.Configuration.Tunnels) && c.Configuration.Tunnels[i].Hostname != "" && c.Configuration.Tunnels[j].Hostname != "") ==> c.Configuration.Tunnels[i].Hostname != c.Configuration.Tunnels[j].Hostname
 //@   ghost t0 gmap[int]Tunnel
 //@   ghost n0 int = 0
 //@   ghost av0 gmap[int]string
@@ -216,3 +216,55 @@ package client
 //@   loop i: invariant reused-indexes-are-distinct: forall p, q int {from[p], from[q]} :: (0 <= p && p < q && q <= rangeindex#3 && t0[p].Hostname == "" && tunnels[p].Hostname != "" && !fresh[tunnels[p].Hostname] && t0[q].Hostname == "" && tunnels[q].Hostname != "" && !fresh[tunnels[q].Hostname]) ==> from[p] != from[q]
 //@   loop i: invariant distinct: forall p, q int {tunnels[p], tunnels[q]} :: (0 <= p && p < q && q < n0 && tunnels[p].Hostname != "" && tunnels[q].Hostname != "") ==> tunnels[p].Hostname != tunnels[q].Hostname
 //@   loop i: invariant assigned-unless-failed: !failed ==> (forall j int {tunnels[j]} :: (0 <= j && j <= rangeindex#3 && tunnels[j].Target != "") ==> tunnels[j].Hostname != "")
+
+// ---- C44: a configuration file that is refused (unreadable, undecodable or invalid) leaves the tunnel list exactly
+// as it was, so that the next accepted file is diffed against what the router and proxy cache really hold; the
+// reload callbacks run only for an accepted file, with the previous and the new list
+//@ func (c *Config) reloadFile(callbacks []func(prev []Tunnel, curr []Tunnel)) (err error)
+//@   safety off
+//@   opt frame=off
+//@   requires c != nil
+//@   ghost validated int = 0
+//@   ghost verr error = nil
+//@   ghost cbs int = 0
+//@   at call validate#*: assert the-new-file-is-validated-before-anything-is-adopted: c.Tunnels == old(c.Tunnels) && validated == 0 && callarg0 != c
+//@   at after call validate#*: ghost verr := callresult
+//@   at after call validate#*: ghost validated := validated + 1
+//@   at call dyn#*: assert callbacks-run-only-for-an-accepted-file: validated == 1 && verr == nil
+//@   at call dyn#*: ghost cbs := cbs + 1
+//@   ensures a-refused-file-leaves-the-tunnel-list-untouched: err != nil ==> c.Tunnels == old(c.Tunnels)
+//@   ensures local-an-invalid-file-is-refused: (validated == 1 && verr != nil) ==> (err != nil && cbs == 0)
+//@   ensures local-success-means-validated: err == nil ==> (validated == 1 && verr == nil)
+
+// ---- C45 (lock discipline around the configuration file): a reload reads and adopts the file only while holding
+// the configuration write lock (the same lock every save holds), so that it can never parse a half-written save;
+// the lock is released on both outcomes and before the (slow) tunnel synchronisation starts
+//@ func (c *Client) doReload(ctx context.Context)
+//@   safety off
+//@   opt frame=off
+//@   requires c != nil && c.Configuration != nil
+//@   ghost held int = 0
+//@   ghost reloads int = 0
+//@   ghost rerr error = nil
+//@   ghost synced int = 0
+//@   at call Lock#*: ghost held := held + 1
+//@   at call Unlock#*: assert only-a-held-lock-is-released: held == 1
+//@   at call Unlock#*: ghost held := held - 1
+//@   at call reloadFile#*: assert the-file-is-read-and-adopted-under-the-configuration-write-lock: held == 1 && reloads == 0 && callarg0 == c.Configuration
+//@   at after call reloadFile#*: ghost rerr := callresult
+//@   at after call reloadFile#*: ghost reloads := reloads + 1
+//@   at call SyncConfigTunnels#?: assert tunnels-are-synchronised-only-after-an-accepted-reload-and-without-the-lock: reloads == 1 && rerr == nil && held == 0
+//@   at call SyncConfigTunnels#?: ghost synced := synced + 1
+//@   ensures local-the-lock-is-released-on-every-outcome: held == 0 && reloads == 1
+//@   ensures local-a-refused-reload-synchronises-nothing: rerr != nil ==> synced == 0
+
+// the background certificate maintenance runs inside the goroutine that Close waits for: a renewal (and the save it
+// triggers) is never left running after Close returned
+//@ func (c *Client) certificateMaintainer(ctx context.Context)
+//@   safety off
+//@   opt frame=off
+//@   requires c != nil
+//@   at go checkAndRenewCertificate#?: assert renewals-are-not-detached-from-the-goroutine-close-waits-for: false
+//@   ghost lastCase int = -1
+//@   at after select#*: ghost lastCase := callresult0
+//@   ensures local-the-maintainer-stops-only-when-the-client-closes-or-its-context-ends: lastCase == 0 || lastCase == 1 || (lastCase == -1 && c.PKIClient == nil)
